@@ -48,6 +48,28 @@ def MC(*cfgs, thorough=None):
     return out
 
 
+def MCA(*cfgs):
+    return [dict(module="MC_KanalAtomic", cfg=("MC_KanalAtomic_%s.cfg" % c, "MC_KanalAtomic_%s.cfg" % c)) for c in cfgs]
+
+
+def seq_programs(tier, seed):
+    rng = random.Random("seq/%d" % seed)
+    if tier == "quick":
+        ps = list(gen.gen_seq_exhaustive(2, [0, 1, 2, None]))
+        ps += list(gen.gen_seq_random(rng, 600))
+    else:
+        ps = list(gen.gen_seq_exhaustive(2, [0, 1, 2, None], flavs=("ss", "aa", "sa", "as")))
+        ps += list(gen.gen_seq_exhaustive(3, [0, 1]))
+        ps += list(gen.gen_seq_random(rng, 20000, lengths=(4, 5, 6, 8, 10, 12)))
+    return ps
+
+
+def handle_programs(tier, seed):
+    if tier == "quick":
+        return list(gen.handle_seq_programs(1)) + list(gen.handle_seq_programs(2)) + list(gen.handle_seq_programs(3, flavs=("aa", "ss"), prefill=(1,)))
+    return list(gen.handle_seq_programs(3)) + list(gen.handle_seq_programs(4, flavs=("aa", "sa"), prefill=(1,)))
+
+
 # L2 conformance stage (hook-level trace validation against Kanal.tla): (programs per capacity, executions each)
 L2Q, L2T = (50, 2), (600, 4)
 
@@ -62,9 +84,14 @@ PLANS = {
                       R("async", (200, 3000), (3, 6), "C05", True), R("chain", (100, 2000), (2, 6), "C05", True)]),
     "C08": dict(mc=MC("sync"), runs=[R("capacity", (300, 5000), (3, 6), "C08", True), R("general", (150, 2000), (3, 5), "C08", True)]),
     "C10": dict(mc=MC("sync", "timed"), runs=[R("close", (300, 5000), (3, 6), "C10", True), R("general", (150, 2000), (3, 5), "C10", True)]),
-    "C11": dict(mc=MC("handles"), runs=[R("disconnect", (300, 5000), (3, 6), "C11", True), R("general", (150, 2000), (3, 5), "C11", True)]),
-    "C12": dict(mc=MC("handles"), runs=[R("handles", (300, 5000), (3, 6), "C12", True)]),
+    "C11": dict(mc=MC("handles"), runs=[R("hseq", (0, 0), (1, 1), "C11", True, programs_fn=handle_programs, own_all=True),
+                                        R("disconnect", (300, 5000), (3, 6), "C11", True), R("general", (150, 2000), (3, 5), "C11", True)]),
+    "C12": dict(mc=MC("handles") + MCA("1p"), runs=[R("hseq", (0, 0), (1, 1), "C12", True, programs_fn=handle_programs, own_all=True),
+                                        R("handles", (300, 5000), (3, 6), "C12", True)]),
     "C13": dict(mc=MC("timed"), runs=[R("timed", (400, 6000), (4, 8), "C13", True), R("chain", (150, 3000), (2, 6), "C13", True)]),
+    "C18": dict(mc=MCA("1p"), l2=False,
+                runs=[R("seq", (0, 0), (1, 1), None, True, programs_fn=seq_programs)],
+                assume=["single-thread call sequences: exhaustive up to length 2 (quick) / 3 (thorough) over a 58-call alphabet per capacity, random longer ones"]),
     "C19": dict(mc=MC("mixed"), runs=[R("drain", (300, 5000), (4, 8), None, True), R("chain_s", (150, 3000), (2, 6), None, True)]),
 }
 
@@ -119,6 +146,8 @@ def run_one_config(prop, run, tier, seed, wd, tag, stats, findings, programs=Non
     rng = random.Random(seed * 1000003 + hash(run["profile"]) % 1000)
     rng = random.Random("%d/%s/%s" % (seed, prop, run["profile"]))
     n = run["n"][ti]
+    if programs is None and run.get("programs_fn"):
+        programs = run["programs_fn"](tier, seed)
     if programs is None:
         programs = [gen.gen_program(rng, run["profile"]) for _ in range(n)]
     pf = os.path.join(wd, tag + ".programs.ndjson")
@@ -192,7 +221,7 @@ def run_one_config(prop, run, tier, seed, wd, tag, stats, findings, programs=Non
             stats["l1_validated"] += v["accepted"]
             for rj in v["rejected"]:
                 d = done.get(rj["x"], {})
-                owned = l1_owned(prop, rj)
+                owned = l1_owned(prop, rj) or run.get("own_all")
                 findings.append(dict(kind="l1" if owned else "l1-other", prog=programs[off + d.get("prog", 0)],
                                      seed=d.get("seed", 0), detail=dict(record=rj["record"], line=rj["line"])))
         if not stats["samples"]:
